@@ -18,14 +18,24 @@ func init() { register("C20", checkC20) }
 // escrowOf: the address is order.GetOrderAddress() — returns the order record root.
 func escrowOf(ff *core.FuncFacts, v ssa.Value) (ssa.Value, bool) {
 	os := ff.Origins(v)
-	if len(os) != 1 || os[0].Kind != "call" || !strings.HasSuffix(os[0].Name, "Order.GetOrderAddress") {
+	if len(os) != 1 || os[0].Kind != "call" {
 		return nil, false
 	}
 	call, _ := os[0].Val.(*ssa.Call)
 	if call == nil || len(call.Common().Args) != 1 {
 		return nil, false
 	}
-	return recordRoot(ff, call.Common().Args[0]), true
+	switch {
+	case strings.HasSuffix(os[0].Name, "Order.GetOrderAddress"):
+		return recordRoot(ff, call.Common().Args[0]), true
+	case strings.HasSuffix(os[0].Name, "x/tradeshield/types.GetSpotOrderAddress"), strings.HasSuffix(os[0].Name, "x/tradeshield/types.GetPerpOrderAddress"):
+		// the accessor's own body: the escrow address of the order whose id this is
+		ids := ff.Origins(call.Common().Args[0])
+		if len(ids) == 1 && strings.HasSuffix(ids[0].Path, ".OrderId") {
+			return ids[0].Val, true
+		}
+	}
+	return nil, false
 }
 
 // recordRoot: canonical root of a struct value (parameter, call result or local alloc).
